@@ -173,6 +173,27 @@ Definition spec_slice (t : table) (vs rets : list rec) (o : obs) : bool :=
   && tbl_eqb (without_all ids t) (without_all ids (o_tbl o))
   && (o_ra o =? Z.of_nat (length vs)).
 
+(* Omit(cols).Save(&v): the full value is stored except the omitted columns, which keep what the row
+   had (or stay empty in a new row); nothing else changes *)
+Definition spec_save_omit (t : table) (os : list col) (v : rec) (o : obs) : bool :=
+  let k := if r_id v =? 0 then r_id (o_ret o) else r_id v in
+  let old := if r_id v =? 0 then None else lookup t k in
+  negb (o_err o)
+  && ((negb (r_id v =? 0)) || fresh_key t k)
+  && match lookup (o_tbl o) k with
+     | Some row =>
+         forallb (fun c => if existsb (col_eqb c) os
+                           then match old with
+                                | Some r => val_eqb (get_col c row) (get_col c r)
+                                | None => is_zero (get_col c row)
+                                end
+                           else val_eqb (get_col c row) (get_col c v)) data_cols
+     | None => false
+     end
+  && others_same k t (o_tbl o)
+  && (r_id (o_ret o) =? k) && same_on data_cols (o_ret o) v
+  && (o_ra o =? 1).
+
 Definition spec_step (t : table) (now : Z) (ch : list cel) (f : fin) (o : obs) : bool :=
   match f with
   | FSave v => spec_save t v o
@@ -180,6 +201,7 @@ Definition spec_step (t : table) (now : Z) (ch : list cel) (f : fin) (o : obs) :
   | FInit ic => spec_init t (ch_conds ch ++ ic) (ch_attrs ch) (ch_assigns ch) o
   | FFoc ic => spec_foc t (ch_conds ch ++ ic) (ch_attrs ch) (ch_assigns ch) o
   | FSaveSlice _ => false       (* needs the slice handed back: see spec_case *)
+  | FSaveOmit os v => spec_save_omit t os v o
   end.
 
 (* [rets] = the caller's slice after the call (Save of a slice), [] otherwise *)
@@ -234,12 +256,13 @@ Definition in_domain (ch : list cel) (f : fin) : bool :=
       kv_alone (ch_attrs ch) && kv_alone (ch_assigns ch)
       && conds_typed (ch_conds ch ++ ic) && args_typed (ch_attrs ch) && args_typed (ch_assigns ch)
       && conds_dom (ch_conds ch ++ ic) && args_data (ch_attrs ch) && args_data (ch_assigns ch)
-  | FSaveSlice _ => false       (* not covered by model_meets_spec; its own domain is slice_dom *)
+  | FSaveSlice _ | FSaveOmit _ _ => false   (* not covered by model_meets_spec; own domains below *)
   end.
 (* Save of a slice: the non-zero keys are distinct *)
 Definition slice_dom (f : fin) : bool :=
   match f with
   | FSaveSlice vs => distinctb (filter (fun k => negb (k =? 0)) (map r_id vs))
+  | FSaveOmit os _ => negb (existsb (col_eqb CId) os)      (* the key is never omitted *)
   | _ => false
   end.
 
